@@ -65,12 +65,14 @@ type Report struct {
 	start    time.Time
 	verifDir string
 	Variants []string // loads analysed (native, 386, cha...)
+	Conds    map[string]func() (bool, string) // machine-checked side conditions of reviewed entries
 }
 
 func NewReport(prop, tier, verifDir string) *Report {
 	r := &Report{Property: prop, Tier: tier, keyCount: map[string]int{}, Counts: map[string]int{},
 		Floors: map[string]int{}, Scope: map[string]int{}, known: map[string]KnownFinding{},
-		table: map[string]TableEntry{}, usedTbl: map[string]bool{}, start: time.Now(), verifDir: verifDir}
+		table: map[string]TableEntry{}, usedTbl: map[string]bool{}, start: time.Now(), verifDir: verifDir,
+		Conds: map[string]func() (bool, string){}}
 	r.loadKnown()
 	r.loadTables()
 	return r
@@ -131,19 +133,67 @@ func (r *Report) OK(rule, key, pos, how string) {
 // Fail records an obligation that the rule could not discharge. It becomes a
 // reviewed-table entry, a known finding or a violation.
 func (r *Report) Fail(rule, key, pos, detail string, path []string) {
+	r.FailC(rule, key, nil, pos, detail, path)
+}
+
+// FailC is Fail with failure classes: a reviewed-table or known-finding entry
+// must exist for every class (key "<obligation key>#<class>"), so that an
+// entry accepting e.g. a comparator never hides a missing sort.
+func (r *Report) FailC(rule, key string, classes []string, pos, detail string, path []string) {
 	r.Counts[rule]++
 	o := Obligation{Rule: rule, Key: key, Pos: pos, Detail: detail, Path: path}
-	if e, ok := r.table[key]; ok {
+	keys := []string{key}
+	if len(classes) > 0 {
+		keys = keys[:0]
+		seen := map[string]bool{}
+		for _, c := range classes {
+			if !seen[c] {
+				seen[c] = true
+				keys = append(keys, key+"#"+c)
+			}
+		}
+		o.Detail += " [classes: " + strings.Join(classes, ",") + "]"
+	}
+	nT, nK := 0, 0
+	var hows []string
+	for _, k := range keys {
+		if e, ok := r.table[k]; ok && r.condHolds(e, &o) {
+			nT++
+			hows = append(hows, "reviewed: "+e.Reason)
+			r.usedTbl[k] = true
+		} else if kf, ok := r.known[k]; ok {
+			nK++
+			hows = append(hows, kf.What)
+		}
+	}
+	switch {
+	case nT == len(keys):
 		o.Status = StTable
-		o.How = "reviewed: " + e.Reason
-		r.usedTbl[key] = true
-	} else if k, ok := r.known[key]; ok {
+		o.How = strings.Join(hows, "; ")
+	case nT+nK == len(keys):
 		o.Status = StKnown
-		o.How = k.What
-	} else {
+		o.How = strings.Join(hows, "; ")
+	default:
 		o.Status = StViolation
 	}
 	r.Obls = append(r.Obls, o)
+}
+
+// condHolds evaluates the machine-checked side condition of a reviewed entry.
+func (r *Report) condHolds(e TableEntry, o *Obligation) bool {
+	if e.Cond == "" {
+		return true
+	}
+	f := r.Conds[e.Cond]
+	if f == nil {
+		o.Detail += " [reviewed entry needs side condition " + e.Cond + ", which this property does not establish]"
+		return false
+	}
+	ok, why := f()
+	if !ok {
+		o.Detail += " [side condition " + e.Cond + " of the reviewed entry fails: " + why + "]"
+	}
+	return ok
 }
 
 // InTable reports whether a reviewed entry exists for key (without recording).
